@@ -27,6 +27,9 @@ N_kKn == { <<107>>, <<75>>, <<110>> }
 LongV == << 76,76,76,76,76,76,76,76,76,76,76,76,76,76,76,76,76,76,76,76 >>          \* 20 bytes > PAD
 V_3   == { << >>, <<120>>, LongV }
 V_4   == { << >>, <<120>>, <<121,121>>, LongV }
+LongW == LongV \o << 87,87,87,87,87 >>                             \* 25 bytes: fits the slack a realloc to LongV leaves
+V_4w  == { << >>, <<120>>, LongV, LongW }
+V_5   == { << >>, <<120>>, <<121,121>>, LongV, LongW }
 X_min == { << >>, <<59,99>> }                                      \* "", ";c"
 X_all == { << >>, <<59,99>>, <<35>>, <<106>>, <<91,120>>, <<91,65,93,122>>, <<61,118>>, <<107,61,97,61,98>>, <<13>> }
    \* "", ";c", "#", "j", "[x", "[A]z", "=v", "k=a=b", CR
